@@ -155,7 +155,17 @@ def check(prop, pid, tier, seed, t0, no_proof) -> int:
         # is the executable model still buildable on its own?
         r = common.run(["lake", "build", "SppModel"], cwd=common.LEAN, timeout=3000)
         model_ok = r.returncode == 0
-    results = evaluate(prop, cases, time.time() + budget, stats, want_model=model_ok)
+    try:
+        results = evaluate(prop, cases, time.time() + budget, stats, want_model=model_ok)
+    except InfraError as e:
+        # the driver names every generated definition: when a translation failed so badly that the driver no
+        # longer elaborates, the executable model is unavailable - that is a broken correspondence (the proofs are
+        # already broken), not an infrastructure problem
+        if proof["ok"] or "driver failed" not in str(e):
+            raise
+        model_ok = False
+        stats["driver_error"] = str(e)[-300:]
+        results = evaluate(prop, cases, time.time() + budget, stats, want_model=False)
 
     mismatches = [r for r in results if r["model"]]
     failures = [r for r in results if r["oracle"]]
@@ -168,7 +178,7 @@ def check(prop, pid, tier, seed, t0, no_proof) -> int:
         broken.append(f"correspondence: {len(mismatches)} of {len(results)} cases disagree "
                       f"(first: {mismatches[0]['model'][:200]})")
     if not model_ok:
-        broken.append("correspondence: executable model does not build")
+        broken.append("correspondence: executable model does not build / run")
     searched = 0
     if broken and not [f for f in failures if classify(prop, f, known_ids) is None]:
         srng = common.prng(pid, seed, "search")
